@@ -57,6 +57,13 @@ def model_signature(m):
     return (tuple(m.get_names()), tuple(sorted(m.create_name_to_description().items())), tuple(sorted(dict(m.get_log_status()).items())), dyn, std)
 
 
+def _cst(meaning):
+    """Value of the contextual constant <cst>: the constant of the flag-dependent equation (the third one) of this model."""
+    rhs = meaning["eqs"][2]["rhs"]
+    c = rhs[2] if rhs[0] == "add" and rhs[2][0] == "num" else ("num", (0, 1))
+    return c[1][0] // c[1][1] if c[1][1] == 1 else c[1][0] / c[1][1]
+
+
 class _OneFingerprint:
     """All mismatches of the nested-pseudofunction model are one finding."""
     def __init__(self, chk):
@@ -74,7 +81,7 @@ def check(chk, sc, text, meaning, rnd, signatures):
     tag = "lang:%s" % ch["fac"]
     desc = "model %s rendered with %s:\n%s" % (sc["mid"], {k: v for k, v in sorted(_plain(ch).items())}, src)
     try:
-        m = ir.Simultaneous.from_string(src, context={"flag": bool(meaning["flag"]), "names": ["a", "b"]})
+        m = ir.Simultaneous.from_string(src, context={"flag": bool(meaning["flag"]), "names": ["a", "b"], "cst": _cst(meaning)})
     except Exception as ex:
         chk.mismatch(tag + ":raised:" + type(ex).__name__, desc + "\nraised %r" % (ex,), payload)
         return
